@@ -1,11 +1,16 @@
 #!/bin/bash
-# tools/seedtest.sh <scratch> <patch.diff> <check ids...> : apply a seeded defect in the scratch repo, run checks there, revert
+# tools/seedtest.sh <scratch> <patch.diff> <check ids...> : apply a seeded defect in the scratch repo (a git worktree
+# of /repo made by tools/scratch.sh, never /repo itself), run checks there, revert. The scratch repo is hard-reset
+# before and after, so that patches never accumulate (git apply -3 stages its result in the index).
 S="$1"; P="$2"; shift 2
-git -C "$S/repo" checkout -q -- . ; git -C "$S/repo" apply -3 "$P" 2>/dev/null || git -C "$S/repo" apply "$P" || { echo "SEED $(basename $(dirname $P)): patch does not apply"; exit 2; }
+clean() { git -C "$S/repo" reset -q --hard; git -C "$S/repo" clean -fdq; }
+clean
+[ -z "$(git -C "$S/repo" status --porcelain)" ] || { echo "SEED $P: scratch repo not clean"; exit 2; }
+git -C "$S/repo" apply "$P" 2>/dev/null || git -C "$S/repo" apply -3 "$P" 2>/dev/null || { echo "SEED $P: patch does not apply"; exit 2; }
 for id in "$@"; do
-  out="$("$S/verif/check" "$id" quick 2>&1 | tail -4)"
+  out="$("$S/verif/check" "$id" quick 2>&1 | tail -6)"
   if echo "$out" | grep -q "^VIOLATED"; then echo "SEED $P: $id CAUGHT ($(echo "$out" | grep -o 'violation\[0\]: [^:]*' | head -1))";
   elif echo "$out" | grep -q "^HELD"; then echo "SEED $P: $id MISSED";
   else echo "SEED $P: $id OTHER: $(echo "$out" | tail -1)"; fi
 done
-git -C "$S/repo" checkout -q -- .
+clean
